@@ -570,6 +570,11 @@ impl<H: Hal, T: Transport> VirtIOSound<H, T> {
                 }
             }
             spin_loop();
+            #[cfg(virtio_drivers_verif)]
+            crate::verif::emit(crate::verif::Event::Spin {
+                site: "pcm_xfer",
+                queue: TX_QUEUE_IDX,
+            });
         }
 
         Ok(())
